@@ -1,0 +1,12 @@
+//go:build verif
+
+package noiseutil
+
+import "crypto/cipher"
+
+// Verification hooks for the `counter` correspondence engine (add-only, no behaviour): build the
+// data-plane cipher states around a caller-supplied AEAD so that the nonce reaching it can be observed.
+
+func VerifNewAESGCM(a cipher.AEAD) *CipherStateAESGCM { return &CipherStateAESGCM{c: a} }
+
+func VerifNewChaChaPoly(a cipher.AEAD) *CipherStateChaChaPoly { return &CipherStateChaChaPoly{c: a} }
